@@ -48,6 +48,7 @@ static void finish_world(void)
         size_t maxname = 0;
         for (size_t i = 0; i < W.ncmds; i++) if (strlen(W.cmd[i]->name) > maxname) maxname = strlen(W.cmd[i]->name);
         size_t cap = w_min_cap() + maxname + 48 + rn(40);
+        if (chance(25)) { cap = w_min_cap() + (chance(40) ? 0 : rn(6)); CNT("tables_on_a_minimal_command_buffer"); }      /* the typed name is never stored (two match bits per command are): a name may be longer than the whole buffer, and the table may use every state slot */
         bool shared = chance(50);
         w_buffers(shared ? cap * 2 + rn(2) : cap, shared, 16 + rn(32));
         w_init((int)rn(2));
